@@ -171,6 +171,9 @@ func genSegments(r *Rng, k int) []segment {
 			if r.Chance(1, 4) {
 				cfg.FileIndent = "    "
 			}
+			if r.Chance(1, 4) {
+				cfg.Indent = []string{"  ", "\t", "    "}[r.Intn(3)]
+			}
 			s := segment{text: cfg.Dump(d), dump: d, cfg: cfg}
 			if r.Bool() {
 				s.blank = true
@@ -183,7 +186,14 @@ func genSegments(r *Rng, k int) []segment {
 	// the junk after a dump must start with a line that cannot continue it
 	for i := 1; i < len(segs); i++ {
 		if !segs[i].isDump() && segs[i-1].isDump() {
-			segs[i].text = "---- end of trace ----\n" + segs[i].text
+			// an indented dump must be followed by a line with the same indentation
+			// (otherwise the scan ends with the 'inconsistent indentation' error)
+			term := segs[i-1].cfg.Indent + "---- end of trace ----"
+			if r.Chance(1, 12) {
+				// a terminating line longer than the read buffer
+				term += strings.Repeat("=", 16380+r.Intn(20000))
+			}
+			segs[i].text = term + "\n" + segs[i].text
 		}
 	}
 	return segs
@@ -216,11 +226,17 @@ type scanCall struct {
 	In  string
 }
 
+// resumeSched, when set, draws the delivery schedule of each call.
+var resumeSched func(n int) []int
+
 func resumeScan(input string, max int) []scanCall {
 	var calls []scanCall
 	in := input
 	for i := 0; i < max; i++ {
 		op := &ScanOp{Op: "scan", Data: hb(in), Sched: []int{}, Final: "eof"}
+		if resumeSched != nil {
+			op.Sched = resumeSched(len(in))
+		}
 		r := implScan(op)
 		calls = append(calls, scanCall{Res: r, In: in})
 		if r.Panic || r.Err != "" {
@@ -389,6 +405,8 @@ func runC07(prop string, res *Result, pool *DrvPool, r *Rng) {
 		res.Count(fmt.Sprintf("final-state:%d", last.State))
 	})
 	n := countN(res.Tier, 800, 30000)
+	resumeSched = func(k int) []int { return genSched(r, k) }
+	defer func() { resumeSched = nil }()
 	for i := 0; i < n; i++ {
 		segs := genSegments(r, 1+r.Intn(4))
 		input := joinSegs(segs)
